@@ -596,7 +596,7 @@ func c04Gen(r *verifh.Rng) []verifh.Section {
 		return ps
 	}
 	for _, dflt := range []int{-1000, 0, 2000, 60000} {
-		for _, mts := range []string{"", "1:120000", "1:120000 2:240000", "0:180000", "1:120000 1:300000", "2:240000 0:180000 1:-70000"} {
+		for _, mts := range []string{"", "1:120000", "1:120000 2:240000", "0:180000", "1:120000 1:300000", "1:300000 1:120000", "2:240000 0:180000 1:-70000"} {
 			for _, method := range []int{0, 1, 2, 3} {
 				eff := dflt
 				for _, p := range parents(eff) {
@@ -610,7 +610,7 @@ func c04Gen(r *verifh.Rng) []verifh.Section {
 	// sequences of calls through ONE interceptor per configuration: methods with their own (longer / shorter / <= 0)
 	// timeout, methods without, the empty method name, in random order, under every kind of caller deadline.
 	// All timeouts of one configuration are >= 20 s apart, so the class window@<ms> is unambiguous.
-	tables := []string{"1:120000", "1:120000 2:240000", "2:-70000 1:180000", "1:120000 1:300000", "0:180000 1:240000", "1:240000 2:120000 3:180000"}
+	tables := []string{"1:120000", "1:120000 2:240000", "2:-70000 1:180000", "1:120000 1:300000", "2:300000 3:180000 2:120000", "0:180000 1:240000", "1:240000 2:120000 3:180000"}
 	nseq := verifh.Scale(4, 24)
 	for i := 0; i < nseq; i++ {
 		var ops []string
